@@ -525,6 +525,14 @@ func (p *Parser) parseSegmentedIdents() ([]string, error) {
 		if ch := p.peekRune(); ch == '/' {
 			// Next segment is a regex so we're done.
 			break
+		} else if ch == '$' {
+			// A bound parameter that resolves to a regex ends the segments
+			// like a literal regex does; parseRegex picks it up.
+			tok, _, _ := p.Scan()
+			p.Unscan()
+			if tok == REGEX {
+				break
+			}
 		} else if ch == ':' {
 			// Next segment is context-specific so let caller handle it.
 			break
@@ -2856,9 +2864,15 @@ func (p *Parser) parseUnaryExpr() (Expr, error) {
 // parseRegex parses a regular expression.
 func (p *Parser) parseRegex() (*RegexLiteral, error) {
 	// The look-ahead below reads runes behind the token stream. If a token is
-	// still pushed back, that token comes next and it is not a regex.
+	// still pushed back, that token comes next, and it is only a regex if it is
+	// a bound parameter that resolved to one.
 	if p.s.n > 0 {
-		return nil, nil
+		tok, _, _ := p.Scan()
+		p.Unscan()
+		if tok != REGEX {
+			return nil, nil
+		}
+		return p.scanRegex()
 	}
 
 	nextRune := p.peekRune()
@@ -2893,6 +2907,11 @@ func (p *Parser) parseRegex() (*RegexLiteral, error) {
 		return nil, nil
 	}
 
+	return p.scanRegex()
+}
+
+// scanRegex scans the next token as a regular expression and compiles it.
+func (p *Parser) scanRegex() (*RegexLiteral, error) {
 	tok, pos, lit := p.ScanRegex()
 
 	if tok == BADESCAPE {
